@@ -20,7 +20,9 @@ for d in rows:
     det = ", ".join(d.get("detected_by", [])) or "**missed**"
     sigs = "; ".join(sorted(set(d.get("violation_signatures", []))))[:160]
     out.append(f"| {d['name']} | {d['breaks_property']} | {'yes' if d.get('confirmed_by_us') else 'NO'} | {det} | {sigs} | {hist.get(d['name'], '')} |")
-n = len(rows); c = sum(1 for d in rows if d.get('confirmed_by_us')); k = sum(1 for d in rows if d.get('confirmed_by_us') and d.get('detected_by'))
-out += ["", f"{n} changes, {c} confirmed, {k} of the confirmed ones detected by the quick tier of the property they target."]
+n = len(rows); c = sum(1 for d in rows if d.get('confirmed_by_us'))
+k = sum(1 for d in rows if d.get('confirmed_by_us') and d['breaks_property'] in d.get('detected_by', []))
+o = sum(1 for d in rows if d.get('confirmed_by_us') and d.get('detected_by') and d['breaks_property'] not in d.get('detected_by', []))
+out += ["", f"{n} changes, {c} confirmed, {k} of the confirmed ones detected by the quick tier of the property they target, {o} more by the quick tier of another property only."]
 open('/verif/seeded/RESULTS.md', 'w').write("\n".join(out) + "\n")
 print(out[-1])
